@@ -1,6 +1,7 @@
 import Mouette.Generated.C14
 import Mouette.Model.MeshCheck
 import Mouette.Lemmas.ListCount
+import Mouette.Lemmas.C14Norm
 /-!
 # C14 — procedural generators: valid meshes of the promised shape, all parameters
 
@@ -175,7 +176,8 @@ theorem unit_grid_inRange (nu nv : Nat) (t u : Bool) :
     ∀ f ∈ unit_gridFaces nu nv t u, ∀ k ∈ f, k < unit_gridNVerts nu nv t u := by
   rw [unit_grid_nverts]
   intro f hf k hk
-  simp only [unit_gridFaces, List.mem_flatMap, List.mem_range] at hf
+  rw [unit_gridFaces_norm] at hf
+  simp only [unit_gridFacesCanon, List.mem_flatMap, List.mem_range] at hf
   obtain ⟨i, hi, j, hj, hf⟩ := hf
   by_cases hc : i < nu - 1 ∧ j < nv - 1
   · have e1 : (i + 1) * nv + nv ≤ nu * nv := by
@@ -191,7 +193,8 @@ theorem torus_inRange (M N : Nat) (t : Bool) :
     ∀ f ∈ torusFaces M N t, ∀ k ∈ f, k < torusNVerts M N t := by
   rw [torus_nverts]
   intro f hf k hk
-  simp only [torusFaces, List.mem_flatMap, List.mem_range] at hf
+  rw [torusFaces_norm] at hf
+  simp only [torusFacesCanon, List.mem_flatMap, List.mem_range] at hf
   obtain ⟨i, hi, j, hj, hf⟩ := hf
   have h1 : (i + 1) % M < M := Nat.mod_lt _ (by omega)
   have h2 : (j + 1) % N < N := Nat.mod_lt _ (by omega)
